@@ -143,7 +143,7 @@ class DecbMachine:
 
     def _collect_data(self, body):
         for st in split_colon(body):
-            st = st.strip()
+            st = st.lstrip()          # blanks that end an unquoted DATA item are content (Color BASIC keeps them)
             if st.startswith("DATA"):
                 items, cur, inq = [], [], False
                 for ch in st[4:]:
@@ -158,6 +158,8 @@ class DecbMachine:
                 for it in items:
                     t = it.strip()
                     quoted = len(t) >= 2 and t.startswith('"') and t.endswith('"')
+                    if not quoted:
+                        t = it.lstrip() if it.strip() else ""
                     self.data.append(t[1:-1] if quoted else t)
                     self.quoted.append(quoted)
 
@@ -656,7 +658,8 @@ class B09Machine:
                     s_ = S.num(self.ev(n[4])) if n[4] is not None else 1.0
                     self.env[n[1]] = a
                     forlim[pc] = (b, s_)
-                    if (s_ >= 0 and a > b) or (s_ < 0 and a < b):      # BASIC09 tests before the first pass
+                    if ((s_ >= 0 and a > b) or (s_ < 0 and a < b)) and "for-zero-trip" not in LENIENT:   # BASIC09 tests before the first pass
+                        # (counterfactual mode `for-zero-trip`: the body runs once, as in Color BASIC - used only to classify)
                         nx = self.jump.get(("for", pc))
                         if nx is None:
                             raise S.EvalError("FOR without NEXT")
